@@ -368,3 +368,322 @@ Theorem model_is_source_C04_Banded : forall A : Arith, @SrcEqBanded.model_is_sou
 Proof. intros A. exact SrcEqBanded.model_is_source_Banded_lemma. Qed.
 Check model_is_source_C04_Banded : forall A : Arith, @SrcEqBanded.model_is_source_Banded A.
 Print Assumptions model_is_source_C04_Banded.
+(* ==== round two, package band2: blocks to append to Props/C04.v (compiled copy: Proofs/PinTest_band2.v) ==== *)
+
+(* ---- the determinant in full (replaces the reading of band_det_spec_partial): over EVERY mathcomp fieldType F, with
+   any abs/ltb that meet PivotLaws (abs 0 = 0, |x| never below 0, 0 < |x| for x <> 0), Banded::det of the model IS
+   mathcomp's \det of the dense twin -- for every well-formed band with m1 <= n, singular twins included (value 0).
+   [ArithOf F abs ltb leb] (Bridge/Det.v) is the Arith whose carrier, 0, 1, +, -, *, / (Panic DivZero at 0) and == are
+   those of F; [mx_of n f] = \matrix_(i < n, j < n) f i j.  Proof (Proofs/BandedDet2.v, Bridge/BandDet.v): at the start
+   of stage k the work matrix, row i read at its alignment column, is an n x n table; stage k exchanges two rows of
+   the table and subtracts multiples of row k from the window rows, i.e. multiplies it on the left by a unit lower
+   triangular matrix and a transposition; the table of stage 0 is the dense twin, the table of stage n is upper
+   triangular with the pivots on the diagonal; d changes sign exactly at the exchanges.  A zero pivot gives a
+   nontrivial kernel (Proofs/BandedComplete.v), hence \det = 0 = the product. ---- *)
+From mathcomp Require ssreflect.ssrnat ssreflect.eqtype algebra.ssralg algebra.matrix algebra.rat.
+From OV Require Import Model.Solve Proofs.LUPrim Proofs.LUTab Bridge.Det Proofs.BandedDet2 Proofs.BandedDet2Wide Bridge.BandDet.
+Theorem band_det_is_det : forall (F : ssralg.GRing.Field.type) (abs : ssralg.GRing.Field.sort F -> ssralg.GRing.Field.sort F)
+  (ltb leb : ssralg.GRing.Field.sort F -> ssralg.GRing.Field.sort F -> bool),
+  PivotLaws (ArithOf F abs ltb leb) -> forall B : banded (ArithOf F abs ltb leb),
+  wfB B -> bm1 B <= bn B ->
+  band_det B = Ok (@matrix.determinant (ssralg.GRing.Field.ringType F) (bn B)
+                     (@mx_of F (bn B) (@dense_entry (ArithOf F abs ltb leb) B))).
+Proof. intros F abs ltb leb PL B. exact (band_det_is_det_lemma PL (B := B)). Qed.
+Check band_det_is_det : forall (F : ssralg.GRing.Field.type) (abs : ssralg.GRing.Field.sort F -> ssralg.GRing.Field.sort F)
+  (ltb leb : ssralg.GRing.Field.sort F -> ssralg.GRing.Field.sort F -> bool),
+  PivotLaws (ArithOf F abs ltb leb) -> forall B : banded (ArithOf F abs ltb leb),
+  wfB B -> bm1 B <= bn B ->
+  band_det B = Ok (@matrix.determinant (ssralg.GRing.Field.ringType F) (bn B)
+                     (@mx_of F (bn B) (@dense_entry (ArithOf F abs ltb leb) B))).
+Print Assumptions band_det_is_det.
+(* non-vacuity: mathcomp's rationals with |x| and < meet PivotLaws; the all-ones 3 x 3 tridiagonal band is well formed.
+   What the function does on bands that need exchanges / are singular, at the exact tier: ex_S (two exchanges) and
+   the singular [[1,1],[1,1]]. *)
+Example band_det_is_det_nonvacuous :
+  PivotLaws ratArith /\
+  wfB (@band_new ratArith 3 1 1 (@ssralg.GRing.one (ssralg.GRing.Field.ringType rat.rat_fieldType))) /\ 1 <= 3 /\
+  @band_det AQ ex_S = Ok (q (-12) 1) /\ @band_det AQ (@band_new AQ 2 1 1 (q 1 1)) = Ok (q 0 1).
+Proof.
+  split; [exact rat_PivotLaws|]. split; [apply band_new_wf|]. split; [lia|]. split; vm_compute; reflexivity.
+Qed.
+
+(* ---- the two determinants of the crate agree (band_det_spec of DESIGN, in full): Banded::det = Matrix::determinant of the
+   dense twin ([tabulate n n f] is the flat row-major n x n buffer with entries f i j, Proofs/LUTab.v), as an equation
+   between the two model functions -- both answer, singular input included.  PivLaws is the hypothesis of C02's
+   determinant_is_det (it implies PivotLaws). ---- *)
+Theorem band_det_spec : forall (F : ssralg.GRing.Field.type) (abs : ssralg.GRing.Field.sort F -> ssralg.GRing.Field.sort F)
+  (ltb leb : ssralg.GRing.Field.sort F -> ssralg.GRing.Field.sort F -> bool),
+  PivLaws (ArithOf F abs ltb leb) -> forall B : banded (ArithOf F abs ltb leb),
+  wfB B -> bm1 B <= bn B ->
+  band_det B = @Solve.determinant (ArithOf F abs ltb leb)
+                 (@tabulate (ArithOf F abs ltb leb) (bn B) (bn B) (@dense_entry (ArithOf F abs ltb leb) B)).
+Proof. intros F abs ltb leb PL B. exact (band_det_spec_lemma PL (B := B)). Qed.
+Check band_det_spec : forall (F : ssralg.GRing.Field.type) (abs : ssralg.GRing.Field.sort F -> ssralg.GRing.Field.sort F)
+  (ltb leb : ssralg.GRing.Field.sort F -> ssralg.GRing.Field.sort F -> bool),
+  PivLaws (ArithOf F abs ltb leb) -> forall B : banded (ArithOf F abs ltb leb),
+  wfB B -> bm1 B <= bn B ->
+  band_det B = @Solve.determinant (ArithOf F abs ltb leb)
+                 (@tabulate (ArithOf F abs ltb leb) (bn B) (bn B) (@dense_entry (ArithOf F abs ltb leb) B)).
+Print Assumptions band_det_spec.
+Example band_det_spec_nonvacuous : PivLaws ratArith.
+Proof. exact rat_PivLaws. Qed.
+
+(* ---- Banded::solve, completely, over every mathcomp field: with D the dense twin as a mathcomp matrix, the answer is the vector
+   D^-1 b ([colv n x] = the column vector \col_(j < n) x_j, [invmx] mathcomp's inverse) when \det D != 0, and the refusal
+   Panic DivZero (division by a zero pivot) when \det D == 0 -- whatever the signs, the exchanges needed and the padding. ---- *)
+Theorem band_solve_spec : forall (F : ssralg.GRing.Field.type) (abs : ssralg.GRing.Field.sort F -> ssralg.GRing.Field.sort F)
+  (ltb leb : ssralg.GRing.Field.sort F -> ssralg.GRing.Field.sort F -> bool),
+  PivotLaws (ArithOf F abs ltb leb) ->
+  forall (B : banded (ArithOf F abs ltb leb)) (b : list (ssralg.GRing.Field.sort F)),
+  wfB B -> bm1 B <= bn B -> length b = bn B ->
+  if @eqtype.eq_op (ssralg.GRing.Field.eqType F)
+       (@matrix.determinant (ssralg.GRing.Field.ringType F) (bn B) (@mx_of F (bn B) (@dense_entry (ArithOf F abs ltb leb) B)))
+       (ssralg.GRing.zero (ssralg.GRing.Field.zmodType F))
+  then band_solve B b = Panic DivZero
+  else exists x : list (ssralg.GRing.Field.sort F), band_solve B b = Ok x /\ length x = bn B /\
+       @colv F (bn B) x =
+       @matrix.mulmx (ssralg.GRing.Field.ringType F) (bn B) (bn B) 1
+         (@matrix.invmx (ssralg.GRing.Field.comUnitRingType F) (bn B) (@mx_of F (bn B) (@dense_entry (ArithOf F abs ltb leb) B)))
+         (@colv F (bn B) b).
+Proof. intros F abs ltb leb PL B b. exact (band_solve_spec_lemma PL (B := B) (b := b)). Qed.
+Check band_solve_spec : forall (F : ssralg.GRing.Field.type) (abs : ssralg.GRing.Field.sort F -> ssralg.GRing.Field.sort F)
+  (ltb leb : ssralg.GRing.Field.sort F -> ssralg.GRing.Field.sort F -> bool),
+  PivotLaws (ArithOf F abs ltb leb) ->
+  forall (B : banded (ArithOf F abs ltb leb)) (b : list (ssralg.GRing.Field.sort F)),
+  wfB B -> bm1 B <= bn B -> length b = bn B ->
+  if @eqtype.eq_op (ssralg.GRing.Field.eqType F)
+       (@matrix.determinant (ssralg.GRing.Field.ringType F) (bn B) (@mx_of F (bn B) (@dense_entry (ArithOf F abs ltb leb) B)))
+       (ssralg.GRing.zero (ssralg.GRing.Field.zmodType F))
+  then band_solve B b = Panic DivZero
+  else exists x : list (ssralg.GRing.Field.sort F), band_solve B b = Ok x /\ length x = bn B /\
+       @colv F (bn B) x =
+       @matrix.mulmx (ssralg.GRing.Field.ringType F) (bn B) (bn B) 1
+         (@matrix.invmx (ssralg.GRing.Field.comUnitRingType F) (bn B) (@mx_of F (bn B) (@dense_entry (ArithOf F abs ltb leb) B)))
+         (@colv F (bn B) b).
+Print Assumptions band_solve_spec.
+
+(* ---- the same two theorems AT THE EXACT TIER ITSELF: AQ (Coq's canonical rationals Qc) is the instance of the model that the
+   correspondence check runs against the implementation's Rat.  Bridge/BandDetQc.v gives Qc its mathcomp fieldType
+   structure (== is Qc_eqb; + * - / are Qcplus Qcmult Qcopp Qcinv) and shows ArithOf Qc_fieldType Qc_abs Qc_ltb Qc_leb = AQ by
+   reflexivity, so the theorems above apply to AQ verbatim.  band_det_spec_Qc mentions no mathcomp notion: it is an
+   equation between the two model functions that the checks C04 and C02 tie to Banded::det and Matrix::determinant. ---- *)
+From OV Require Import Proofs.LUQc Bridge.BandDetQc.
+Theorem band_det_spec_Qc : forall B : banded AQ, wfB B -> bm1 B <= bn B ->
+  @band_det AQ B = @Solve.determinant AQ (@tabulate AQ (bn B) (bn B) (@dense_entry AQ B)).
+Proof. intros B. exact (band_det_spec_Qc_lemma (B := B)). Qed.
+Check band_det_spec_Qc : forall B : banded AQ, wfB B -> bm1 B <= bn B ->
+  @band_det AQ B = @Solve.determinant AQ (@tabulate AQ (bn B) (bn B) (@dense_entry AQ B)).
+Print Assumptions band_det_spec_Qc.
+Example band_det_spec_Qc_nonvacuous :    (* ex_S: 4 x 4, m1 = 2, m2 = 1, two exchanges, loud padding; both sides are -12 *)
+  wfB ex_S /\ bm1 ex_S <= bn ex_S /\ @band_det AQ ex_S = Ok (q (-12) 1) /\
+  @Solve.determinant AQ (@tabulate AQ (bn ex_S) (bn ex_S) (@dense_entry AQ ex_S)) = Ok (q (-12) 1).
+Proof. split; [repeat split|]. split; [cbn; lia|]. split; vm_compute; reflexivity. Qed.
+Theorem band_det_is_det_Qc : forall B : banded AQ, wfB B -> bm1 B <= bn B ->
+  @band_det AQ B = Ok (@matrix.determinant (ssralg.GRing.Field.ringType Qc_fieldType) (bn B)
+                         (@mx_of Qc_fieldType (bn B) (@dense_entry AQ B))).
+Proof. intros B. exact (band_det_is_det_Qc_lemma (B := B)). Qed.
+Check band_det_is_det_Qc : forall B : banded AQ, wfB B -> bm1 B <= bn B ->
+  @band_det AQ B = Ok (@matrix.determinant (ssralg.GRing.Field.ringType Qc_fieldType) (bn B)
+                         (@mx_of Qc_fieldType (bn B) (@dense_entry AQ B))).
+Print Assumptions band_det_is_det_Qc.
+
+(* ---- the determinant vanishes exactly on the singular twins, and the solver answers exactly on the nonsingular ones -- over
+   ANY field arithmetic (FieldLaws + PivotLaws; no mathcomp: Qc, the reals, Complex over a field alike).  This completes
+   band_det_spec_partial (which had "nonsingular => nonzero" only).  New half (Proofs/BandedDet2Ker.v): nonzero pivots give a
+   trivial kernel -- a solution of D x = 0 is carried forwards through the row operations of every stage to the final
+   upper triangular table with nonzero diagonal.  Consequence: whether band_solve refuses does not depend on the
+   right-hand side: one answer means nonsingular, nonsingular means every right-hand side is answered exactly. ---- *)
+From OV Require Import Proofs.BandedDet2Ker.
+Theorem band_det_nonzero_iff_nonsingular : forall (A : Arith), FieldLaws A -> PivotLaws A -> forall B : banded A,
+  wfB B -> bm1 B <= bn B ->
+  exists dd, band_det B = Ok dd /\ (dd <> zero <-> trivial_kernel B).
+Proof. intros A FL PL B. exact (band_det_nonzero_iff_gen FL PL B). Qed.
+Check band_det_nonzero_iff_nonsingular : forall (A : Arith), FieldLaws A -> PivotLaws A -> forall B : banded A,
+  wfB B -> bm1 B <= bn B ->
+  exists dd, band_det B = Ok dd /\ (dd <> zero <-> trivial_kernel B).
+Print Assumptions band_det_nonzero_iff_nonsingular.
+Theorem band_solve_answers_iff_nonsingular : forall (A : Arith), FieldLaws A -> PivotLaws A -> forall B : banded A,
+  wfB B -> bm1 B <= bn B ->
+  ((exists b x, length b = bn B /\ band_solve B b = Ok x) <-> trivial_kernel B) /\
+  (trivial_kernel B <->
+   forall b, length b = bn B -> exists x, band_solve B b = Ok x /\ length x = bn B /\ dense_mulv B x = b).
+Proof. intros A FL PL B. exact (band_solve_answers_iff_gen FL PL B). Qed.
+Check band_solve_answers_iff_nonsingular : forall (A : Arith), FieldLaws A -> PivotLaws A -> forall B : banded A,
+  wfB B -> bm1 B <= bn B ->
+  ((exists b x, length b = bn B /\ band_solve B b = Ok x) <-> trivial_kernel B) /\
+  (trivial_kernel B <->
+   forall b, length b = bn B -> exists x, band_solve B b = Ok x /\ length x = bn B /\ dense_mulv B x = b).
+Print Assumptions band_solve_answers_iff_nonsingular.
+Example band_det_nonzero_iff_nonsingular_nonvacuous :   (* ex_K = [[0,1],[1,5]]: nonsingular (band_solve_complete_nonvacuous), det -1 *)
+  PivotLaws AQ /\ wfB ex_K /\ bm1 ex_K <= bn ex_K /\ @band_det AQ ex_K = Ok (q (-1) 1).
+Proof. split; [exact AQ_PivotLaws|]. split; [repeat split|]. split; [cbn; lia|]. vm_compute. reflexivity. Qed.
+
+(* ---- m1 <= n is necessary, and what happens without it is known exactly: on a well-formed band with m1 > n, over ANY
+   arithmetic (f64 included), decompose falls off the compact buffer in its first loop (the left shift reaches row n),
+   so det and solve panic with an index error and never return a value (solve's own size guard comes first). ---- *)
+Theorem band_wide_panics : forall (A : Arith) (B : banded A),
+  wfB B -> bn B < bm1 B ->
+  band_det B = Panic Index /\
+  forall b : list A, band_solve B b = if bn B =? length b then Panic Index else Panic Guard.
+Proof. intros A B. exact (band_wide_panics_lemma B). Qed.
+Check band_wide_panics : forall (A : Arith) (B : banded A),
+  wfB B -> bn B < bm1 B ->
+  band_det B = Panic Index /\
+  forall b : list A, band_solve B b = if bn B =? length b then Panic Index else Panic Guard.
+Print Assumptions band_wide_panics.
+Example band_wide_panics_nonvacuous :
+  wfB (@band_new AQ 2 3 0 (q 1 1)) /\ 2 < 3 /\ @band_det AQ (@band_new AQ 2 3 0 (q 1 1)) = Panic Index.
+Proof. split; [apply band_new_wf|]. split; [lia|]. vm_compute. reflexivity. Qed.
+
+(* ---- padding never reaches a result of the compact LU, over ANY arithmetic -- binary64 with NaN or infinite padding
+   included; no ring or field law, no hypothesis on the kernel, no bound on m1: two well-formed bands that agree on every
+   in-matrix slot get the same determinant and the same solution, or the same panic.  (Lockstep proof,
+   Proofs/BandedDet2Pad.v: the two runs choose the same pivots, make the same exchanges, store the same multipliers, and
+   their work matrices agree on every slot whose column lies inside the matrix; padding values only flow into padding
+   slots.)  This supersedes the reading "on a nonsingular band over a field" of band_solve_padding_independent. ---- *)
+From OV Require Import Proofs.BandedDet2Pad Proofs.BandedDet2Cor Proofs.BandedDet2Round.
+Theorem band_det_padding_independent : forall (A : Arith) (B B' : banded A),
+  wfB B -> same_in_matrix_slots B B' -> band_det B' = band_det B.
+Proof. intros A B B'. exact (band_det_padding_lemma B B'). Qed.
+Check band_det_padding_independent : forall (A : Arith) (B B' : banded A),
+  wfB B -> same_in_matrix_slots B B' -> band_det B' = band_det B.
+Print Assumptions band_det_padding_independent.
+Theorem band_solve_padding_independent_any : forall (A : Arith) (B B' : banded A) (b : list A),
+  wfB B -> same_in_matrix_slots B B' -> band_solve B' b = band_solve B b.
+Proof. intros A B B' b. exact (band_solve_padding_any_lemma B B' b). Qed.
+Check band_solve_padding_independent_any : forall (A : Arith) (B B' : banded A) (b : list A),
+  wfB B -> same_in_matrix_slots B B' -> band_solve B' b = band_solve B b.
+Print Assumptions band_solve_padding_independent_any.
+(* ... and the matrix-vector product likewise (band_mul_spec has this under ring laws; here: any arithmetic) *)
+Theorem band_mul_padding_independent_any : forall (A : Arith) (B B' : banded A) (v : list A),
+  wfB B -> length v = bn B -> same_in_matrix_slots B B' -> band_mul B' v = band_mul B v.
+Proof. intros A B B' v. exact (band_mul_padding_any_lemma B B' v). Qed.
+Check band_mul_padding_independent_any : forall (A : Arith) (B B' : banded A) (v : list A),
+  wfB B -> length v = bn B -> same_in_matrix_slots B B' -> band_mul B' v = band_mul B v.
+Print Assumptions band_mul_padding_independent_any.
+(* non-vacuity at binary64: [[2,1],[1,5]] (m1 = m2 = 1) once with NaN and once with 0 / 7 in the two padding slots *)
+Definition ex_F : banded AF := @mkB AF 2 1 1 (@mkM AF [nan; 2; 1;   1; 5; nan]%float 2 3).
+Definition ex_F' : banded AF := @mkB AF 2 1 1 (@mkM AF [0; 2; 1;   1; 5; 7]%float 2 3).
+Example band_padding_independent_nonvacuous :
+  wfB ex_F /\ same_in_matrix_slots ex_F ex_F' /\ compact ex_F' <> compact ex_F /\
+  wfB ex_K /\ same_in_matrix_slots ex_K ex_K' /\ compact ex_K' <> compact ex_K.
+Proof.
+  split; [repeat split|]. split.
+  { split; [repeat split|]. repeat split.
+    intros i j Hi Hj. cbn in Hi, Hj.
+    destruct i as [|[|i]]; try lia; destruct j as [|[|j]]; try lia; intros Hb; try discriminate Hb; vm_compute; reflexivity. }
+  split.
+  { intros E. apply (f_equal (fun m : matrix AF => PrimFloat.eqb (nth 5 (buf m) 0%float) (nth 5 (buf m) 0%float))) in E.
+    vm_compute in E. discriminate E. }
+  split; [repeat split|]. exact band_solve_padding_independent_nonvacuous.
+Qed.
+
+(* ---- the hypothesis m1 <= n dropped from soundness: on EVERY well-formed band whatever band_solve returns solves the
+   dense twin's system (for m1 > n it returns nothing, band_wide_panics) ---- *)
+Theorem band_solve_sound_all : forall (A : Arith), FieldLaws A -> forall (B : banded A) (b x : list A),
+  wfB B -> length b = bn B -> band_solve B b = Ok x -> length x = bn B /\ dense_mulv B x = b.
+Proof. intros A FL B b x. exact (band_solve_sound_all_lemma FL B b x). Qed.
+Check band_solve_sound_all : forall (A : Arith), FieldLaws A -> forall (B : banded A) (b x : list A),
+  wfB B -> length b = bn B -> band_solve B b = Ok x -> length x = bn B /\ dense_mulv B x = b.
+Print Assumptions band_solve_sound_all.
+
+(* ---- every (n, m1, m2), every right-hand side of the right length: an exact answer, or the division by a zero pivot
+   of the solver's own factorisation (m1 <= n), or the index panic of the left shift (m1 > n); nothing else ---- *)
+Theorem band_solve_trichotomy : forall (A : Arith), FieldLaws A -> forall (B : banded A) (b : list A),
+  wfB B -> length b = bn B ->
+  (exists x, band_solve B b = Ok x /\ length x = bn B /\ dense_mulv B x = b) \/
+  (bm1 B <= bn B /\ band_solve B b = Panic DivZero /\
+   exists auN alN indexN dN,
+     decompose_gen false B (compact B) (mat_new (bn B) (bm1 B) zero) (repeat 0 (bn B)) = Ok (auN, alN, indexN, dN) /\
+     exists i, i < bn B /\ mat_at auN (bm1 B + bm2 B + 1) i 0 = zero) \/
+  (bn B < bm1 B /\ band_solve B b = Panic Index).
+Proof. intros A FL B b. exact (band_solve_trichotomy_lemma FL B b). Qed.
+Check band_solve_trichotomy : forall (A : Arith), FieldLaws A -> forall (B : banded A) (b : list A),
+  wfB B -> length b = bn B ->
+  (exists x, band_solve B b = Ok x /\ length x = bn B /\ dense_mulv B x = b) \/
+  (bm1 B <= bn B /\ band_solve B b = Panic DivZero /\
+   exists auN alN indexN dN,
+     decompose_gen false B (compact B) (mat_new (bn B) (bm1 B) zero) (repeat 0 (bn B)) = Ok (auN, alN, indexN, dN) /\
+     exists i, i < bn B /\ mat_at auN (bm1 B + bm2 B + 1) i 0 = zero) \/
+  (bn B < bm1 B /\ band_solve B b = Panic Index).
+Print Assumptions band_solve_trichotomy.
+Example band_solve_trichotomy_nonvacuous :   (* all three outcomes occur *)
+  is_ok (@band_solve AQ ex_S [q 2 1; q (-1) 1; q 6 1; q 5 1]) = true /\
+  @band_solve AQ (@band_new AQ 2 1 1 (q 0 1)) [q 1 1; q 1 1] = Panic DivZero /\
+  @band_solve AQ (@band_new AQ 2 3 0 (q 1 1)) [q 1 1; q 1 1] = Panic Index.
+Proof. repeat split; vm_compute; reflexivity. Qed.
+
+(* ---- binary64 half of the product, as far as a theorem reaches: componentwise backward error of &B * &v in the STANDARD MODEL
+   of floating-point arithmetic ([ARnd fadd fsub fmul fdiv], Proofs/TridiagRound.v: the operations are arbitrary functions on
+   the reals with fadd x y = (x + y)(1 + d), fmul x y = (x y)(1 + d), |d| <= u; no underflow/overflow -- the SAME Gallina
+   band_mul that the check runs at Qc and at the IEEE floats).  The computed product is the EXACT product ([AR]: real
+   arithmetic) of a band B' of the same sizes whose every stored entry differs from that of B by at most
+   gamma |entry|, gamma = (1 + u)^(m1 + m2 + 2) - 1 (about (m1 + m2 + 2) u): fl(B v) = (B + dB) v, |dB| <= gamma |B|, with a
+   constant that depends on the band width and NOT on n.  (A backward-error statement for the compact LU solve is not
+   proved.) ---- *)
+From Coq Require Import Reals.
+From OV Require Import Proofs.VectorR Proofs.TridiagRound Proofs.BandedDet2Round.
+Theorem band_mul_backward_error : forall (u : R), (0 <= u <= 1)%R -> forall fadd fsub fmul fdiv : R -> R -> R,
+  (forall x y : R, exists d : R, (Rabs d <= u)%R /\ fadd x y = ((x + y) * (1 + d))%R) ->
+  (forall x y : R, exists d : R, (Rabs d <= u)%R /\ fmul x y = (x * y * (1 + d))%R) ->
+  forall (B : banded (ARnd fadd fsub fmul fdiv)) (v : list R),
+  @wfB (ARnd fadd fsub fmul fdiv) B -> length v = bn B ->
+  exists B' : banded AR,
+    bn B' = bn B /\ bm1 B' = bm1 B /\ bm2 B' = bm2 B /\ @wfB AR B' /\
+    (forall i s, i < bn B -> s < bm1 B + bm2 B + 1 ->
+       (Rabs (@cslot AR B' i s - @cslot (ARnd fadd fsub fmul fdiv) B i s)
+        <= ((1 + u) ^ (bm1 B + bm2 B + 2) - 1) * Rabs (@cslot (ARnd fadd fsub fmul fdiv) B i s))%R) /\
+    @band_mul (ARnd fadd fsub fmul fdiv) B v = @band_mul AR B' v /\
+    @band_mul AR B' v = Ok (@dense_mulv AR B' v).
+Proof. intros u Hu fadd fsub fmul fdiv Hadd Hmul B v. exact (band_mul_backward_ex u Hu fadd fsub fmul fdiv Hadd Hmul B v). Qed.
+Check band_mul_backward_error : forall (u : R), (0 <= u <= 1)%R -> forall fadd fsub fmul fdiv : R -> R -> R,
+  (forall x y : R, exists d : R, (Rabs d <= u)%R /\ fadd x y = ((x + y) * (1 + d))%R) ->
+  (forall x y : R, exists d : R, (Rabs d <= u)%R /\ fmul x y = (x * y * (1 + d))%R) ->
+  forall (B : banded (ARnd fadd fsub fmul fdiv)) (v : list R),
+  @wfB (ARnd fadd fsub fmul fdiv) B -> length v = bn B ->
+  exists B' : banded AR,
+    bn B' = bn B /\ bm1 B' = bm1 B /\ bm2 B' = bm2 B /\ @wfB AR B' /\
+    (forall i s, i < bn B -> s < bm1 B + bm2 B + 1 ->
+       (Rabs (@cslot AR B' i s - @cslot (ARnd fadd fsub fmul fdiv) B i s)
+        <= ((1 + u) ^ (bm1 B + bm2 B + 2) - 1) * Rabs (@cslot (ARnd fadd fsub fmul fdiv) B i s))%R) /\
+    @band_mul (ARnd fadd fsub fmul fdiv) B v = @band_mul AR B' v /\
+    @band_mul AR B' v = Ok (@dense_mulv AR B' v).
+Print Assumptions band_mul_backward_error.
+(* non-vacuity: an inexact arithmetic in the model (every sum and product 25% too large, u = 1/2) and a well-formed band over it *)
+Example band_mul_backward_error_nonvacuous :
+  (0 <= / 2 <= 1)%R /\
+  (forall x y : R, exists d : R, (Rabs d <= / 2)%R /\ ((x + y) * (1 + / 4))%R = ((x + y) * (1 + d))%R) /\
+  (forall x y : R, exists d : R, (Rabs d <= / 2)%R /\ (x * y * (1 + / 4))%R = (x * y * (1 + d))%R) /\
+  @wfB (ARnd (fun x y => ((x + y) * (1 + / 4))%R) Rminus (fun x y => (x * y * (1 + / 4))%R) Rdiv)
+       (@band_new (ARnd (fun x y => ((x + y) * (1 + / 4))%R) Rminus (fun x y => (x * y * (1 + / 4))%R) Rdiv) 3 1 1 1%R).
+Proof.
+  split; [split; Lra.lra|].
+  assert (H : (Rabs (/ 4) <= / 2)%R) by (rewrite Rabs_pos_eq; Lra.lra).
+  split; [intros x y; exists (/ 4)%R; split; [exact H|reflexivity]|].
+  split; [intros x y; exists (/ 4)%R; split; [exact H|reflexivity]|]. apply band_new_wf.
+Qed.
+
+(* ---- the tie by proof carried through to the new theorems: the same statements about the functions REGENERATED FROM
+   src/banded.rs on this run (gen/SrcBanded.v; equalities Proofs/SrcEqBanded.v): the translated Banded::det is the determinant
+   of the dense twin at the exact tier (singular twins included; the matrix determinant is the model function that C02
+   ties -- on purpose C04 does not depend on the source text of src/matrix/solve.rs), and the translated det / solve /
+   &B * &v do not see padding, over any arithmetic. ---- *)
+From OV Require Import gen.SrcBanded Proofs.BandedDet2Src.
+Theorem source_band_det_is_determinant_Qc : forall B : banded AQ, wfB B -> bm1 B <= bn B ->
+  @s_band_det AQ B = @Solve.determinant AQ (@tabulate AQ (bn B) (bn B) (@dense_entry AQ B)).
+Proof. exact source_band_det_spec_Qc_lemma. Qed.
+Check source_band_det_is_determinant_Qc : forall B : banded AQ, wfB B -> bm1 B <= bn B ->
+  @s_band_det AQ B = @Solve.determinant AQ (@tabulate AQ (bn B) (bn B) (@dense_entry AQ B)).
+Print Assumptions source_band_det_is_determinant_Qc.
+Theorem source_band_padding_independent : forall (A : Arith) (B B' : banded A),
+  wfB B -> same_in_matrix_slots B B' ->
+  s_band_det B' = s_band_det B /\
+  (forall b, s_band_solve B' b = s_band_solve B b) /\
+  (forall v, length v = bn B -> s_band_mul B' v = s_band_mul B v).
+Proof. intros A B B'. exact (source_band_padding_lemma B B'). Qed.
+Check source_band_padding_independent : forall (A : Arith) (B B' : banded A),
+  wfB B -> same_in_matrix_slots B B' ->
+  s_band_det B' = s_band_det B /\
+  (forall b, s_band_solve B' b = s_band_solve B b) /\
+  (forall v, length v = bn B -> s_band_mul B' v = s_band_mul B v).
+Print Assumptions source_band_padding_independent.
